@@ -12,6 +12,7 @@ from __future__ import annotations
 import copy
 
 from .. import clientkit, common, wire, xstate
+from nmea2000.consts import PhysicalQuantities as PQ
 from nmea2000.decoder import NMEA2000Decoder
 from nmea2000.encoder import NMEA2000Encoder
 
@@ -34,6 +35,9 @@ def events():
         fr = wire.fast_frames(c, fast_payload(c))
         for i, f in enumerate(fr):
             ev[f"f{c}_{i}"] = ("tcp", wire.ebyte_packet(ident, f))
+    temp = bytes.fromhex("0101008a72ffffff")                                     # PGN 130312: instance 1, source 0, 293.06 K
+    ev["T"] = ("tcp", wire.ebyte_packet(wire.can_id(5, 130312, 1, 255), temp))
+    ev["T_src7"] = ("tcp", wire.ebyte_packet(wire.can_id(5, 130312, 7, 255), temp))  # same payload, other source
     ev["trunc0"] = ("tcp", wire.ebyte_packet(ident, b""))
     ev["trunc1"] = ("tcp", wire.ebyte_packet(ident, b"\x00"))            # first frame of counter 0 without its length byte
     ev["trunc1b"] = ("tcp", wire.ebyte_packet(ident, b"\x21"))           # frame 1 of counter 1 without data
@@ -64,6 +68,24 @@ def probes():
     good = wire.fast_frames(6, bytes.fromhex("010002000300040005000600"))
     out["fast_after_rejected_completion"] = [("tcp", wire.ebyte_packet(oor_ident, f)) for f in good]
     return out
+
+
+def feed_obj(dec, entry, arg):
+    """-> (result view, message object or None)"""
+    try:
+        if entry == "tcp":
+            m = dec.decode_tcp(arg)
+        elif entry == "usb":
+            m = dec.decode_usb(arg)
+        elif entry == "acti":
+            m = dec.decode_actisense_string(arg)
+        elif entry == "yd":
+            m = dec.decode_yacht_devices_string(arg)
+        else:
+            m = dec.decode_basic_string(arg)
+        return ("msg", common.msg_view(m)), m
+    except Exception as ex:  # noqa: BLE001
+        return ("raised", type(ex).__name__), None
 
 
 def feed(dec, entry, arg):
@@ -99,6 +121,7 @@ class State:
         self.x = NMEA2000Decoder()
         self.y = NMEA2000Decoder()      # fed exactly like X
         self.r = NMEA2000Decoder()      # fed only the inputs X did not reject with an error
+        self.p = NMEA2000Decoder(preferred_units={PQ.TEMPERATURE: "C", PQ.ANGLE: "deg"})   # another configuration, same inputs
 
 
 def norm(res):
@@ -116,6 +139,9 @@ def run_bfs(max_states):
         fresh[pname] = [feed(d, e, a) for e, a in seq]
     enc = NMEA2000Encoder()
     enc_msg = clientkit.gnss_message()
+    STATELESS = ("A", "T", "T_src7", "unk", "oor")
+    base_plain = {n: feed(NMEA2000Decoder(), *evs[n]) for n in STATELESS}
+    base_pref = {n: feed(NMEA2000Decoder(preferred_units={PQ.TEMPERATURE: "C", PQ.ANGLE: "deg"}), *evs[n]) for n in STATELESS}
     fp0 = class_fingerprint()
     stats = {"probes": 0}
 
@@ -124,10 +150,22 @@ def run_bfs(max_states):
 
     def step(s, name):
         entry, arg = evs[name]
-        rx = feed(s.x, entry, arg)
+        rx, ox = feed_obj(s.x, entry, arg)
         enc.encode_ebyte(enc_msg)                      # an encoder working between the two decoders
-        ry = feed(s.y, entry, arg)
+        ry, oy = feed_obj(s.y, entry, arg)
+        rp, op = feed_obj(s.p, entry, arg)
         out = []
+        objs = [o for o in (ox, oy, op) if o is not None]
+        if len({id(o) for o in objs}) != len(objs):
+            out.append(viol("message_object_shared", name, "the same message object was returned by two decode calls (callers would see each other's changes)"))
+        if ox is not None and ("msg", common.msg_view(ox)) != rx:
+            out.append(viol("returned_message_changed_later", name, "a message returned by decoder X changed after other decoders decoded the same input"))
+        if name in STATELESS:
+            if rx != base_plain[name]:
+                out.append(viol("single_frame_depends_on_history", name, f"decoder X returned {str(rx[1])[:100]}, a fresh decoder {str(base_plain[name][1])[:100]}"))
+            if rp != base_pref[name]:
+                out.append(viol("single_frame_depends_on_history", name, f"decoder with unit preferences returned {str(rp[1])[:120]}, a fresh one {str(base_pref[name][1])[:120]}",
+                                {"probe": "preferences"}))
         if rx != ry:
             out.append(viol("instances_disagree", name, f"decoder X returned {rx[0]}:{str(rx[1])[:80]}, decoder Y fed the same history returned {ry[0]}:{str(ry[1])[:80]}"))
         if rx[0] != "raised":
@@ -150,7 +188,7 @@ def run_bfs(max_states):
         return out
 
     def key(s):
-        return common.canon_key([s.x, s.y, s.r, class_fingerprint()])
+        return common.canon_key([s.x, s.y, s.r, s.p, class_fingerprint()])
 
     def nontrivial(s):
         return len(getattr(s.x, "data", {})) > 0
@@ -202,7 +240,7 @@ def run(ctx):
         "states": res.states, "transitions": res.transitions, "traces_validated_against_impl": res.transitions * 2 + nprobes,
         "evaluations": res.transitions + nprobes + n_cfg, "distinct_nontrivial": res.nontrivial,
         "distinct_outcomes": 1 + len({v["kind"] for v in vios}),
-        "rule": "BFS states of (decoder X, decoder Y, decoder R that never sees inputs X rejected); every transition feeds one of 24 events to X and Y (and to R unless X rejected it) and runs 3 probes on a deep copy of X; "
+        "rule": "BFS states of (decoder X, decoder Y, decoder R that never sees inputs X rejected); every transition feeds one of 26 events to X, Y and P (another configuration) (and to R unless X rejected it) and runs 3 probes on a deep copy of X; "
                 "non-trivial = X holds at least one partly received fast-packet message",
         "samples": [{"history": h} for h in res.samples[:2]] or [{"history": []}],
         "probes_run": nprobes, "max_depth": res.max_depth, "configuration_checks": n_cfg,
